@@ -251,3 +251,23 @@ Example driver_example :
   outcome (S "{[#A][#A]}.{#A=[$][#X;w=abc][$]}") = Some EType /\
   outcome (S "{[#A][#B]}.{#A=[$][#X][$]}") = Some (ESyntax (S "nofrag")).
 Proof. vm_compute. repeat split; reflexivity. Qed.
+
+(** ** the coarse branch of fragment_iter as the writer component models it (Write/FragRead.v) IS an instance of the shape:
+    [mk false name (clean, bd, _, attributes) = read_fragment_cgsmiles fo clean name bd attributes] *)
+From CGV Require Write.FragRead.
+Definition mk_coarse (fo : float_oracle) (_ : bool) (name : pystr) (r : result) : res graph :=
+  let '(clean, bd, _, attributes) := r in Write.FragRead.read_fragment_cgsmiles fo clean name bd attributes.
+Lemma coarse_branch_is_instance fo aa name text :
+  (r <- strip_bonding_descriptors fo text ;; mk_coarse fo aa name r) = Write.FragRead.read_coarse_fragment fo name text.
+Proof. reflexivity. Qed.
+(** so: a coarse fragment block whose k-th definition the writer's model refuses at the strip stage is refused as a whole *)
+Theorem coarse_fragments_strip_error fo add block pre nt post e :
+  fragment_split block = pre ++ nt :: post ->
+  Forall (fun y => exists g, Write.FragRead.read_coarse_fragment fo (fst y) (snd y) = Ok g) pre ->
+  strip_bonding_descriptors fo (snd nt) = Err e ->
+  read_fragments_with fo (mk_coarse fo) add block false = Err e.
+Proof.
+  intros Hs F He. apply (fragments_strip_error fo (mk_coarse fo) add block false pre nt post e Hs); [|exact He].
+  eapply Forall_impl; [|exact F]. intros y (g & Hg). rewrite <- (coarse_branch_is_instance fo false) in Hg.
+  destruct (strip_bonding_descriptors fo (snd y)) as [r|]; cbn [bind] in Hg; [|discriminate]. now exists r, g.
+Qed.
